@@ -134,7 +134,8 @@ def report(ctx, o, why):
         small["outs_len"] = len(small["outs"])
         del small["outs"]
     path = ctx.write_replay("n%d-seed%d" % (o["n"], o["seed"]), {
-        "property": "C04", "what": why, "input": {"n": o["n"], "seed": o["seed"], "k": o["k"], "walk": bool(o.get("walk"))},
+        "property": "C04", "what": why, "input": {"n": o["n"], "seed": o["seed"], "k": o["k"], "walk": bool(o.get("walk")),
+                                                  "interleaved_with": o.get("interleaved_with", 0)},
         "observed": small, "replay_cmd": "bin/check C04 --replay <this file>"})
     ctx.findings.append({"key": "n=%d" % o["n"], "what": why, "replay": path})
 
@@ -175,6 +176,15 @@ def run(ctx):
             if why:
                 report(ctx, o, why)
         ctx.info.append("%d complete walks of sparse sizes (n just above a table prime) judged by the property" % len(sp))
+        ok, _ = ctx.harness_run("c04", ["-out", "inter.jsonl", "-interleaved", "-seed", ctx.seed + 11], timeout=600)
+        il = ctx.read_jsonl(os.path.join(ctx.work, "inter.jsonl")) if ok else []
+        for o in il:
+            ctx.count("interleaved", (o["n"], o["seed"], o["k"]), nontrivial=True)
+            why = spec_on_impl(o)
+            if why:
+                o = dict(o, interleaved_with=o["k"])
+                report(ctx, o, "a walk of 1..%d that is suspended while %d further iterators are constructed (sizes of the same and other table rows), then continued: %s" % (o["n"], o["k"], why))
+        ctx.info.append("%d complete walks, each suspended while 1100..4100 further iterators were constructed, judged by the property" % len(il))
         ok, _ = ctx.harness_run("c04", ["-out", "jump.jsonl", "-jump"], timeout=600)
         jp = ctx.read_jsonl(os.path.join(ctx.work, "jump.jsonl")) if ok else []
         for o in jp:
@@ -256,8 +266,11 @@ def replay(ctx, path):
     i = r["input"]
     if not ctx.harness_build("c04"):
         return 1
-    ok, _ = ctx.harness_run("c04", ["-out", "one.jsonl", "-walk" if i.get("walk") else "-replay",
-                                    "%d,%d,%d" % (i["n"], i["seed"], i["k"])], timeout=3000)
+    if i.get("interleaved_with"):
+        ok, _ = ctx.harness_run("c04", ["-out", "one.jsonl", "-interleaved1", "%d,%d,%d" % (i["n"], i["seed"], i["interleaved_with"])], timeout=3000)
+    else:
+        ok, _ = ctx.harness_run("c04", ["-out", "one.jsonl", "-walk" if i.get("walk") else "-replay",
+                                        "%d,%d,%d" % (i["n"], i["seed"], i["k"])], timeout=3000)
     o = ctx.read_jsonl(os.path.join(ctx.work, "one.jsonl"))[0]
     why = spec_on_impl(o)
     print("replay n=%d seed=%d: %s" % (i["n"], i["seed"], why or "property holds on this input"))
